@@ -547,6 +547,13 @@ func wktSets() []*Set {
 	p2.addMap("by_name", 3, tString, kindSpec{t: tMessage, name: ".google.protobuf.UninterpretedOption.NamePart"})
 	p2.add(field("plain", 5, kindSpec{t: tString}))
 	f.msg(p2)
+	// extendable protobuf-go messages inside a generated message (extensions resolved through the caller's resolver)
+	ho := newMsg("."+pkg, "HoldsOptions")
+	ho.add(field("fo", 1, kindSpec{t: tMessage, name: ".google.protobuf.FieldOptions"}))
+	ho.add(repeated(field("mos", 2, kindSpec{t: tMessage, name: ".google.protobuf.MessageOptions"})))
+	ho.addMap("by", 3, tString, kindSpec{t: tMessage, name: ".google.protobuf.FieldOptions"})
+	ho.add(field("inner", 4, kindSpec{t: tMessage, name: "." + pkg + ".HoldsOptions"}))
+	f.msg(ho)
 	return []*Set{simpleSet("wkt", f)}
 }
 
